@@ -634,7 +634,7 @@ func (cs *c07Case) write() (data []byte, err error) {
 			}
 		}
 	case "buffer":
-		parts := 1 + cs.Index%3
+		parts := 1 + ((cs.Index%3)+3)%3
 		per := (len(rows) + parts - 1) / parts
 		buf := parquet.NewBuffer(schema)
 		for i := 0; i < len(rows) || i == 0; i += max(per, 1) {
@@ -725,6 +725,29 @@ func c07PlainPagesInDictChunk(cc parquet.ColumnChunk) (dictPages, plainPages int
 		}
 		parquet.Release(p)
 	}
+}
+
+// c07DictFallback reports whether a column chunk holds both dictionary-encoded data pages and data
+// pages in another encoding (the writer fell back from the dictionary to PLAIN), from the encoding
+// statistics of the footer; page reading is the fallback when the footer has none.
+func c07DictFallback(f *parquet.File, rgi, leaf int, cc parquet.ColumnChunk) bool {
+	dict, other := 0, 0
+	if md := f.Metadata(); rgi < len(md.RowGroups) && leaf < len(md.RowGroups[rgi].Columns) {
+		for _, es := range md.RowGroups[rgi].Columns[leaf].MetaData.EncodingStats {
+			if es.PageType != format.DataPage && es.PageType != format.DataPageV2 {
+				continue
+			}
+			if es.Encoding == format.RLEDictionary || es.Encoding == format.PlainDictionary {
+				dict += int(es.Count)
+			} else {
+				other += int(es.Count)
+			}
+		}
+	}
+	if dict+other == 0 {
+		dict, other = c07PlainPagesInDictChunk(cc)
+	}
+	return dict > 0 && other > 0
 }
 
 func c07Gunzip(b []byte) ([]byte, error) {
@@ -859,7 +882,7 @@ func c07CheckChunk(ctx *core.Ctx, b *c07Batch, cs *c07Case, f *parquet.File, rgi
 			if col.phys() == "boolean" {
 				situation = "bool-bloom-write-hashes-packed-bytes"
 			} else if col.Enc == "dict" || cs.Typed {
-				if dp, pp := c07PlainPagesInDictChunk(cc); dp > 0 && pp > 0 {
+				if c07DictFallback(f, rgi, leaf, cc) {
 					situation = "dict-fallback-plain-pages-missing-from-filter"
 				}
 			}
@@ -929,7 +952,7 @@ func c07CheckChunk(ctx *core.Ctx, b *c07Batch, cs *c07Case, f *parquet.File, rgi
 		}
 		key := "file-filter-bytes-vs-model-" + col.phys()
 		if col.Enc == "dict" || cs.Typed {
-			if dp, pp := c07PlainPagesInDictChunk(cc); dp > 0 && pp > 0 {
+			if c07DictFallback(f, rgi, leaf, cc) {
 				key = "file-filter-bytes-dict-fallback-plain-pages-missing"
 			}
 		}
@@ -998,6 +1021,7 @@ func c07LoadCorpus(path string, index int) (*c07Case, error) {
 // replay file written by ./check: {"seed":..,"layer":..,"key":..,"detail":{"case":{"index":..}}}
 type c07ReplayFile struct {
 	Seed   int64  `json:"seed"`
+	Tier   string `json:"tier"`
 	Key    string `json:"key"`
 	Detail struct {
 		Case *struct {
@@ -1029,6 +1053,9 @@ func RunC07Files(ctx *core.Ctx) {
 			return // not a file case (the pure sub-check re-runs with the recorded seed)
 		}
 		ctx.Seed = rf.Seed
+		if rf.Tier != "" {
+			ctx.Tier = rf.Tier // case sizes depend on the tier
+		}
 		if rf.Detail.Case.Index >= 0 {
 			replayIndex = rf.Detail.Case.Index
 		}
@@ -1119,4 +1146,3 @@ func RunC07Files(ctx *core.Ctx) {
 }
 
 var _ = json.Marshal
-var _ = format.Plain
